@@ -216,3 +216,53 @@ func TestStatements(t *testing.T) {
 		t.Error("truncate")
 	}
 }
+
+// Reserved non-positive collection ids (check C12: -10 = model.ReplicateCollectionID, -1 = model.TmpCollectionID):
+// a negative BIGINT argument is compared as a number - exact match only, never a wildcard - in SELECT and DELETE.
+func TestNegativeIntegerArgs(t *testing.T) {
+	db, _ := New()
+	ctx := context.Background()
+	if _, err := db.ExecContext(ctx, `CREATE TABLE IF NOT EXISTS tn (k VARCHAR(255) NOT NULL, task_id VARCHAR(255) NOT NULL,
+		collection_id BIGINT NOT NULL, v JSON, PRIMARY KEY (k))`); err != nil {
+		t.Fatal(err)
+	}
+	ins := "INSERT INTO tn (k, task_id, collection_id, v) VALUES (?, ?, ?, ?) ON DUPLICATE KEY UPDATE v = ?"
+	for _, c := range []int64{-10, -1, 1, 10} {
+		if _, err := db.ExecContext(ctx, ins, fmt.Sprintf("r/p/t/%d", c), "t", c, "x", "x"); err != nil {
+			t.Fatal(err)
+		}
+	}
+	ids := func(q string, args ...interface{}) []int64 {
+		t.Helper()
+		rows, err := db.QueryContext(ctx, q, args...)
+		if err != nil {
+			t.Fatal(err)
+		}
+		defer rows.Close()
+		out := []int64{}
+		for rows.Next() {
+			var c int64
+			if err := rows.Scan(&c); err != nil {
+				t.Fatal(err)
+			}
+			out = append(out, c)
+		}
+		sort.Slice(out, func(i, j int) bool { return out[i] < out[j] })
+		return out
+	}
+	q := "SELECT collection_id FROM tn WHERE k LIKE ? AND task_id = ? AND collection_id = ?"
+	for _, c := range []int64{-10, -1, 1, 10} {
+		if got := ids(q, "r/p/%", "t", c); !reflect.DeepEqual(got, []int64{c}) {
+			t.Errorf("select collection_id = %d: got %v", c, got)
+		}
+	}
+	if got := ids(q, "r/p/%", "t", int64(-100)); len(got) != 0 {
+		t.Errorf("select collection_id = -100: got %v", got)
+	}
+	if _, err := db.ExecContext(ctx, "DELETE FROM tn WHERE task_id = ? AND k LIKE ? AND collection_id = ?", "t", "r/p/t/%", int64(-10)); err != nil {
+		t.Fatal(err)
+	}
+	if got := ids("SELECT collection_id FROM tn WHERE k LIKE ?", "r/p/%"); !reflect.DeepEqual(got, []int64{-1, 1, 10}) {
+		t.Errorf("after delete of -10: got %v", got)
+	}
+}
